@@ -39,7 +39,14 @@ pub fn annotate_sheet(rng: &mut Rng, ws: &mut Worksheet, sheet_name: &str, uid: 
         }
         let h = cell.get_hyperlink_mut();
         if rng.chance(3, 4) {
-            h.set_url(format!("http://h/{}?a=1&b=<{}>&c='q'&d=\"é日\"", uid, uid));
+            // web addresses, mail addresses and files next to / above / below the workbook
+            let url = match rng.below(6) {
+                0 => format!("../reports/q{}.xlsx", uid),
+                1 => format!("sub dir/file{}.xlsx#Sheet1!A1", uid),
+                2 => format!("mailto:a{}@example.com?subject=x&y", uid),
+                _ => format!("http://h/{}?a=1&b=<{}>&c='q'&d=\"é日\"", uid, uid),
+            };
+            h.set_url(url);
             h.set_location(false);
             o.count("hyperlinks.external", 1);
         } else {
